@@ -203,8 +203,11 @@ def r3(ctx, chk):
             if isinstance(l, ast.Subscript) and isinstance(r, ast.Subscript) and isinstance(l.slice, ast.Slice) and isinstance(r.slice, ast.Slice):
                 up = ast.unparse(l.slice.upper) if l.slice.upper else ""
                 lo_ = ast.unparse(r.slice.lower) if r.slice.lower else ""
-                if up.replace(" ", "") == "start+1" and lo_ == "stop" and l.slice.lower is None and r.slice.upper is None:
-                    ok = True
+                for spn in [x for x in ast.walk(lp) if isinstance(x, ast.Assign) and ast.unparse(x.value).endswith(".span()")
+                            and isinstance(x.targets[0], ast.Tuple) and len(x.targets[0].elts) == 2]:
+                    a_, b_ = [ast.unparse(e) for e in spn.targets[0].elts]
+                    if up.replace(" ", "") == a_ + "+1" and lo_ == b_ and l.slice.lower is None and r.slice.upper is None:
+                        ok = True
     sp = [n for n in ast.walk(lp) if isinstance(n, ast.Assign) and ast.unparse(n.value).endswith(".span()")]
     chk.ob(rule, "the zone is cut out as s[:start+1] + s[stop:] (the captured leading character stays)", ok and bool(sp),
            "a digit of the time before the zone would be lost (or the zone kept)",
@@ -276,7 +279,10 @@ def r5(ctx, chk):
         raise AnalysisError(rule, "DateParser.parse: `if ptz:` not found")
     blk = ifs[0].body
     first = blk[0]
-    attach = {"%s.localize(date_obj)" % ptz, "date_obj.replace(tzinfo=%s)" % ptz}
+    res = [n.targets[0].elts[0].id for n in iter_own_nodes(f.node) if isinstance(n, ast.Assign) and isinstance(n.targets[0], ast.Tuple)
+           and isinstance(n.value, ast.Call) and ast.unparse(n.value.func) == "parse_method" and isinstance(n.targets[0].elts[0], ast.Name)]
+    dob = res[0] if res else "date_obj"
+    attach = {"%s.localize(%s)" % (ptz, dob), "%s.replace(tzinfo=%s)" % (dob, ptz)}
     vals = set()
     if isinstance(first, ast.If):
         for b in (first.body, first.orelse):
